@@ -10,10 +10,28 @@ import fcntl, hashlib, json, os, re, shutil, subprocess, sys, time
 from concurrent.futures import ThreadPoolExecutor
 
 ROOT = os.path.dirname(os.path.dirname(os.path.dirname(os.path.abspath(__file__))))
-REPO = os.environ.get("VERIF_REPO", "/repo")
-OUT = os.path.join(ROOT, "out")
-COQ = os.path.join(ROOT, "coq")
-HARNESS = os.path.join(ROOT, "harness")
+REPO = os.path.realpath(os.environ.get("VERIF_REPO", "/repo"))
+# Alternate-repo mode (VERIF_REPO=<scratch worktree>): used to try the checks against a modified
+# tree without touching /repo.  Everything the run writes (harness copy, coq copy with its own
+# Gen/Constants.v, case files, evidence) lives under out/alt-<tag>/.
+ALT = REPO != "/repo"
+if ALT:
+    _tag = hashlib.sha1(REPO.encode()).hexdigest()[:8]
+    OUT = os.path.join(ROOT, "out", "alt-" + _tag)
+    COQ = os.path.join(OUT, "coq")
+    HARNESS = os.path.join(OUT, "harness")
+    EVIDENCE = os.path.join(OUT, "evidence")
+    os.makedirs(OUT, exist_ok=True)
+    subprocess.run(["rsync", "-a", "--delete", "--exclude", ".lia.cache", os.path.join(ROOT, "coq") + "/", COQ + "/"], check=True)
+    subprocess.run(["rsync", "-a", "--delete", os.path.join(ROOT, "harness") + "/", HARNESS + "/"], check=True)
+    _gm = os.path.join(HARNESS, "go.mod")
+    _txt = open(_gm).read().replace("=> /repo", "=> " + REPO)
+    open(_gm, "w").write(_txt)
+else:
+    OUT = os.path.join(ROOT, "out")
+    COQ = os.path.join(ROOT, "coq")
+    HARNESS = os.path.join(ROOT, "harness")
+    EVIDENCE = os.path.join(ROOT, "evidence")
 BIN = os.path.join(OUT, "bin")
 NPROC = os.cpu_count() or 4
 
@@ -226,13 +244,13 @@ def emit_known(pid, text):
 
 
 def write_evidence(pid, tier, seed, coverage, wall_s, violations, assumptions, level="proof"):
-    os.makedirs(os.path.join(ROOT, "evidence"), exist_ok=True)
+    os.makedirs(EVIDENCE, exist_ok=True)
     ev = {
         "property_id": pid, "tier": tier, "seed": seed, "level": level,
         "coverage": coverage, "assumptions": assumptions,
         "wall_s": round(wall_s, 2), "violations": violations,
     }
-    with open(os.path.join(ROOT, "evidence", pid + ".json"), "w") as f:
+    with open(os.path.join(EVIDENCE, pid + ".json"), "w") as f:
         json.dump(ev, f, indent=1)
     return ev
 
